@@ -300,6 +300,23 @@ func (fv *FV) specIdent(env *SpecEnv, name string) Val {
 			return *found
 		}
 	}
+	if !env.pos.IsValid() && env.cur != nil && env.macroDepth == 0 {
+		// postconditions may mention a local variable of the body by name: its
+		// value at exit (only if the name is unambiguous)
+		var found *Val
+		for o, v := range env.cur.vars {
+			if o.Name() == name {
+				vv := v
+				if found != nil && found.T != vv.T {
+					fv.unsupported("spec: ambiguous local %q in postcondition", name)
+				}
+				found = &vv
+			}
+		}
+		if found != nil {
+			return *found
+		}
+	}
 	// package-level constant or variable
 	if env.pkg != nil {
 		if o := env.pkg.Types.Scope().Lookup(name); o != nil {
@@ -532,6 +549,16 @@ func (fv *FV) specCall(env *SpecEnv, x SCall) Val {
 	case "int":
 		v := arg(0)
 		return Val{T: v.T, S: "Int", Go: types.Typ[types.Int]}
+	case "post":
+		// post(p): final value of a slice parameter that the callee modifies in place
+		id, ok := x.Args[0].(SIdent)
+		if !ok {
+			fv.unsupported("spec: post() takes a parameter name")
+		}
+		if v, ok := env.names["post:"+id.Name]; ok {
+			return v
+		}
+		fv.unsupported("spec: post(%s) not available here", id.Name)
 	case "unchanged":
 		var parts []string
 		for i := range x.Args {
@@ -715,8 +742,12 @@ func (fv *FV) pureApp(c *Contract, vals []Val, env *SpecEnv) Val {
 			bs = append(bs, fmt.Sprintf("(%s %s)", bn, vals[i].S))
 			bts = append(bts, bn)
 			if vals[i].Go != nil {
-				if g := fv.typeInv(bn, vals[i].Go, 0); g != "true" {
-					guards = append(guards, g)
+				// only scalar ranges guard the axiom; structural invariants of
+				// sequences/structs are not needed by functional postconditions
+				if _, isBasic := types.Unalias(vals[i].Go).Underlying().(*types.Basic); isBasic {
+					if g := fv.typeInv(bn, vals[i].Go, 0); g != "true" {
+						guards = append(guards, g)
+					}
 				}
 			}
 		}
@@ -753,6 +784,17 @@ func (fv *FV) checkClosurePure(c *Closure, name string) {
 	ms := fv.modifies(c.Lit.Body)
 	fv.fn = saved
 	for o := range ms.vars {
+		if fv.contract != nil {
+			skip := false
+			for _, ir := range fv.contract.Irrelevant {
+				if ir == o.Name() {
+					skip = true
+				}
+			}
+			if skip {
+				continue
+			}
+		}
 		if o.Pos() < c.Lit.Pos() || o.Pos() > c.Lit.End() {
 			fv.unsupported("closure passed as %s assigns captured variable %s: the callee contract cannot be used (impure closure)", name, o.Name())
 		}
